@@ -36,7 +36,7 @@ ASSUMPTIONS = [
     "tolerance 1e-10 on sums, 1e-12 on transposes",
 ]
 PROBES = ["mortar_nonmatching", "mortar_one_side_only", "mortar_perturbed_nodes", "secondary_refined", "secondary_copy", "primary_refined", "primary_coarser",
-          "primary_after_nonmatching_mortar", "secondary_after_nonmatching_mortar", "mortar_after_primary", "three_kinds_in_one_run", "immersed_tip", "ge_4_replacements", "mortar_sides_given_in_other_order", "mortar_nonmatching_3d", "secondary_refined_3d"]
+          "primary_after_nonmatching_mortar", "secondary_after_nonmatching_mortar", "mortar_after_primary", "three_kinds_in_one_run", "immersed_tip", "ge_4_replacements", "mortar_sides_given_in_other_order", "mortar_nonmatching_3d", "secondary_refined_3d", "grid_1d_non_monotone_numbering"]
 
 TOL = 1e-9
 
@@ -126,9 +126,41 @@ def make_mdg(ch):
     return mdg, full, nx, fr
 
 
+def renumbered_1d(ch, g, tr):
+    """The same 1-d grid with its cells and nodes numbered in a drawn order (e.g. a locally refined grid whose new
+    cells and nodes were appended at the end): a valid grid; nothing in the API asks for monotone numbering."""
+    import scipy.sparse as sps
+
+    nn, nc = g.num_nodes, g.num_cells
+    pn = np.array(ch.shuffle(list(range(nn))))  # new node k = old node pn[k]
+    pc = np.array(ch.shuffle(list(range(nc))))  # new cell k = old cell pc[k]
+    if np.all(np.diff(pn) > 0) and np.all(np.diff(pc) > 0):
+        return g
+    nodes = g.nodes[:, pn].copy()
+    inv_n = np.argsort(pn)
+    cf = g.cell_faces.tocsc()  # faces = nodes in 1-d
+    rows, cols, data = [], [], []
+    for k in range(nc):
+        c = pc[k]
+        sl = slice(cf.indptr[c], cf.indptr[c + 1])
+        rows.extend(inv_n[cf.indices[sl]].tolist())
+        cols.extend([k] * (sl.stop - sl.start))
+        data.extend(cf.data[sl].tolist())
+    cell_faces = sps.csc_matrix((np.array(data), (np.array(rows), np.array(cols))), shape=(nn, nc))
+    face_nodes = sps.identity(nn, format="csc", dtype=bool)
+    ng = pp.Grid(1, nodes, face_nodes, cell_faces, "renumbered 1d grid")
+    ng.compute_geometry()
+    for tag in pp.utils.tags.standard_face_tags():
+        ng.tags[tag] = g.tags[tag][pn].copy()
+    ng.update_boundary_node_tag()
+    tr.probe("grid_1d_non_monotone_numbering")
+    return ng
+
+
 def new_side_grid(ch, g, tr):
     n = ch.rng(2, 7)
     ng = pp.refinement.remesh_1d(g, n)
+    renumber = n > 2 and ch.flag(1, 3)
     if n > 2 and ch.flag(1, 3):
         # move interior nodes along the (horizontal) fracture: a non-uniform, non-nested grid on the same segment;
         # each node moves by less than 0.3 of the smaller neighbouring gap, so the ordering is kept
@@ -140,6 +172,8 @@ def new_side_grid(ch, g, tr):
         ng.nodes[0] = x
         ng.compute_geometry()
         tr.probe("mortar_perturbed_nodes")
+    if renumber:
+        ng = renumbered_1d(ch, ng, tr)
     return ng, n
 
 
@@ -204,9 +238,12 @@ def run_history_c26(ch, tr: Trace) -> None:
         else:
             n = ch.rng(2, 8)
             ng = pp.refinement.remesh_1d(lo, n)
+            desc = f"remesh({n})"
+            if n > 2 and ch.flag(1, 3):
+                ng = renumbered_1d(ch, ng, tr)
+                desc += "+renumbered"
             state["secondary_replaced"] = True
             tr.probe("secondary_refined")
-            desc = f"remesh({n})"
         if state["mortar_nonmatching"]:
             tr.probe("secondary_after_nonmatching_mortar")
         guarded("secondary replacement", lambda: mdg.replace_subdomains_and_interfaces(sd_map={lo: ng}))
